@@ -74,6 +74,7 @@ func runC15(t *testing.T, c StallCase) *kit.Result {
 	opsDone := 0
 	bytesWritten := 0
 	dropChecks := 0
+	statusCalls := 0
 	out := simrt.Run(t, cfg, func() {
 		sim = simrt.S
 		cl := newReplCluster(c.Cfg, c.PK, c.RK, c.Healthy, c.Link)
@@ -350,6 +351,20 @@ func runC15(t *testing.T, c StallCase) *kit.Result {
 		}
 		done := false
 		simrt.GoNamed("waiter", func() { wg.Wait(); done = true })
+		// someone watches the topology while all this goes on (the service's
+		// GetNodeInfo and the manager's Status), as a client library or an
+		// operator's tooling would
+		if cl.pmgr != nil {
+			simrt.GoNamed("monitor", func() {
+				kit.TagNode(cl.fs, "n1")
+				for !done && res.V == nil {
+					simrt.Sleep(time.Duration(150+simrt.Intn(500)) * time.Millisecond)
+					cl.pmgr.GetNodeInfo()
+					cl.pmgr.Status()
+					statusCalls++
+				}
+			})
+		}
 		for !done && res.V == nil {
 			simrt.Sleep(500 * time.Millisecond)
 			now := simrt.NowUnstalled()
@@ -386,7 +401,11 @@ func runC15(t *testing.T, c StallCase) *kit.Result {
 				simrt.Sleep(time.Second)
 			}
 			dropChecks++
-			for _, info := range cl.primary.GetReplicaInfo() {
+			listed := cl.primary.GetReplicaInfo()
+			if cl.pmgr != nil {
+				_, _, listed, _, _ = cl.pmgr.GetNodeInfo()
+			}
+			for _, info := range listed {
 				if info.Address == bs.addr {
 					fail("dead-peer-still-listed", "dead-peer-still-listed:"+bp.Kind, fmt.Sprintf("peer %s (%s): %s %v ago, heartbeat interval %dms timeout %dms, and Primary.GetReplicaInfo still lists it (available=%v, last sequence %d)",
 						bs.addr, bp.Kind, bs.why, time.Duration(simrt.NowUnstalled()-bs.stoppedAt), c.Cfg.HBIntervalMs, c.Cfg.HBTimeoutMs, info.Available, info.LastSequence))
@@ -446,6 +465,7 @@ func runC15(t *testing.T, c StallCase) *kit.Result {
 	res.Probes["primary_ops_completed"] += int64(opsDone)
 	res.Probes["bytes_written_to_primary"] += int64(bytesWritten)
 	res.Probes["dead_peer_topology_checks"] += int64(dropChecks)
+	res.Probes["topology_polls_during_the_run"] += int64(statusCalls)
 	for _, bp := range c.Bad {
 		res.Fault("peer_"+bp.Kind, 1)
 	}
